@@ -266,6 +266,12 @@ def gen_scenario(rng, prof=None, force_selflock=None):
         if rng.random() < 0.5:
             sched.append({'op': 'newsolver'})
         sched.append({'op': 'run', 'dt': dt, 'T': mulq(dt, rng.randint(3, n))})
+    if rng.random() < p.get('p_inplace_args', 0.15):
+        # the step / duration objects handed to run() went through an in-place conversion first (objects with a history)
+        for op_ in sched:
+            if op_['op'] == 'run':
+                op_['T_via'] = rng.choice(time_units_for(dt_si))
+                op_['dt_via'] = rng.choice(time_units_for(dt_si))
     spec['schedule'] = sched
     spec['_ref'] = {'k': k, 'T_out': T_out, 'w_out': w_out, 'dt_si': dt_si, 'n': n}
     return spec
